@@ -5,6 +5,7 @@ CONSTANTS
   ExportScripts = TRUE
   EnableFaults = TRUE
   EnableRestart = TRUE
+  EnableDebugWrites = TRUE
   SrcVals = {0, 3, 129, 255}
   Dts = {1, 2, 3, 5, 7}
 VIEW View
